@@ -9,7 +9,7 @@ Record case := mk_case {
   c_log2 : N; c_lat : Z; c_max : Z; c_auto : bool; c_cap : N;
   c_pre : list page;
   c_script : list (list req * nat);
-  o_outcome : N;                 (* 0 ok, 1 panic "page not found", 2 panic in Insert *)
+  o_outcome : N;                 (* 0 ok, 1 panic "page not found", 2 panic in Insert, 3 any other panic *)
   o_ticks : list tick_obs;
   o_final : dto }.
 
@@ -49,7 +49,8 @@ Definition lookup_final (d : dto) (pid va : N) : option page :=
   find (fun p => (pg_pid p =? pid) && (pg_vaddr p =? va)) (dto_pages d).
 
 Definition holds_on (c : case) : bool :=
-  if (o_outcome c =? 0) && c_auto c then
+  if c_auto c then
+    (o_outcome c =? 0) &&    (* with auto allocation on, a translation never panics *)
     let final := dto_pages (o_final c) in
     let autos := filter (fun p => negb (existsb (same_key p) (c_pre c))) final in
     (* every answer carries the single mapping of its (process, virtual page) *)
